@@ -191,7 +191,8 @@ theorem drain_payload_append (fuel : Nat) (t : Tracker) (iter : Option Nat) (add
               show (storePayload _ _ _).payload ++ d = _
               rw [storePayload_payload]
             · exact ih (discardState t key chunk) _ added
-          · obtain ⟨d, hd⟩ := ih (deliverState t key chunk) (cyclicSucc (deliverState t key chunk).buf key) true
+          · obtain ⟨d, hd⟩ := ih (deliverState t key chunk) (cyclicSucc (deliverState t key chunk).buf key)
+              (added || !chunk.isEmpty)
             refine ⟨chunk ++ d, ?_⟩
             rw [hd]
             show (t.payload ++ chunk) ++ d = _
